@@ -14,12 +14,12 @@ import (
 )
 
 type c05Case struct {
-	S        vScenario `json:"s"`
-	MaxDepth int       `json:"maxdepth"`
-	Element  string    `json:"element"`
-	Food     string    `json:"food"`
+	S        vScenario  `json:"s"`
+	MaxDepth int        `json:"maxdepth"`
+	Element  string     `json:"element"`
+	Food     string     `json:"food"`
 	Extra    [][]string `json:"extra,omitempty"` // random combinations of the options of reg and bal (beside the fixed list)
-	Bin      bool      `json:"bin"`
+	Bin      bool       `json:"bin"`
 }
 
 func c05Commands(c c05Case) [][]string {
@@ -224,7 +224,11 @@ func checkC05(c c05Case, ctx *vCtx) *vFailure {
 				}
 			}
 		}
-		for _, pc := range [][]string{{"csv", "database-resolved"}, {"reg"}, {"bal"}, {"report", "totals"}} {
+		for _, pc := range [][]string{{"csv", "database-resolved"}, {"reg"}, {"bal"}, {"report", "totals"},
+			// the same files under a depth limit of 1 (resolution fails as soon as a recipe is nested): a failed run must
+			// leave nothing behind either
+			{"-d", f.Book, "-l", f.Log, "csv", "database-resolved"}, {"-d", f.Book, "-l", f.Log, "reg"}, {"-d", f.Book, "-l", f.Log, "bal", "-s", c.Element},
+			{"-d", f.Book, "-l", f.Log, "--maxdepth", "2", "report", "element-total", c.Element}} {
 			_ = vRunApp(vInvocation{Args: pc, Env: env})
 			ctx.Run(1)
 		}
